@@ -245,3 +245,40 @@ def _is_bound_payload(e, which):
     has_call = any(isinstance(s, tuple) and s and s[0] == "call" and s[1] == which for s in mir.walk(inner))
     has_arith = any(isinstance(s, tuple) and s and s[0] in ("binop", "pcall") for s in mir.walk(e))
     return has_call and not has_arith
+
+
+def drnview1(ctx, prog, cfg, rule="DRNVIEW1"):
+    """The views over the not-yet-yielded part of a drain (what Drain::drop destroys and Debug
+    shows) are bounded by `iter` — the index iterator that shrinks as elements are handed out —
+    never by `range`, the immutable record of the hole."""
+    for short in ("Drain::as_slices", "Drain::as_mut_slices"):
+        f = ctx.need_fn(prog, short, rule)
+        if f is None:
+            continue
+        ams = f.calls_to("add_mod", unwind=False)
+        seen = set()
+        uses_range = []
+        for b, t in f.calls(False):
+            for a in f.call_args(b):
+                a = f.deep_simplify(a)
+                for s in mir.walk(a):
+                    if isinstance(s, tuple) and s and s[0] == "load" and s[2] and s[2][0] == "range":
+                        uses_range.append((b, mir.callee_short(t)))
+        for b, i, st, is_term in f.positions(False):
+            if not is_term and st["k"] == "assign":
+                e = f.deep_simplify(f.rvalue_expr(st["rv"], b, i))
+                for s in mir.walk(e):
+                    if isinstance(s, tuple) and s and s[0] == "load" and s[2] and s[2][0] == "range":
+                        uses_range.append((b, "assignment"))
+        for b, t in ams:
+            a = [mir.strip_casts(f.deep_simplify(x)) for x in f.call_args(b)]
+            if len(a) == 3 and isinstance(a[1], tuple) and a[1][0] == "load" and a[1][2][:1] == ("iter",):
+                seen.add(a[1][2])
+        ctx.check({("iter", "start"), ("iter", "end")} <= seen, rule, short, "bounds are add_mod(start, iter.start|iter.end, N)", f.loc,
+                  "the un-yielded view is not bounded by both `iter.start` and `iter.end` (found %s): elements already handed "
+                  "out by next/next_back would be destroyed again by Drain::drop or shown by Debug" % sorted(seen),
+                  "bounds derive from iter.start and iter.end", cfg)
+        ctx.check(not uses_range, rule, short, "does not read `range`", f.loc,
+                  "the un-yielded view reads `range` (%s), the immutable record of the requested hole, which still covers "
+                  "elements that were already yielded" % uses_range,
+                  "no load of Drain.range", cfg)
